@@ -36,7 +36,7 @@ NA = {
     "C34": "header/aggregation validators need prepared transaction structures (hash-bearing); not calibrated in the time available",
     "C35": "relationship tables are IndexMap<SubintentHash,..> (map-backed; two operations did not finish under CBMC)",
     "C36": "static manifest interpreter over instruction vectors, boxed ASTs and maps",
-    "C37": "constraint validators are comparison-only Decimal code and would fit Engine K, but were not built in the time available",
+    "C37": "constraint validators are comparison-only Decimal code over IndexSet-backed id sets; the fungible side would fit Engine M but was not built in the time available",
     "C38": "movement visitor over boxed ASTs and maps",
     "C39": "decision reads KV entries and vault existence through the system API + SBOR; not tractable under the mock",
     "C40": "state-machine transitions are private generic impls over SystemApi; hooks + MockApi were designed (DESIGN 2.1) but not built in the time available",
@@ -46,7 +46,7 @@ NA = {
     "C44": "consensus-manager timestamp checks go through SystemApi field I/O (MockApi not built in the time available)",
     "C45": "wasmparser / wasm-instrument over whole modules",
     "C46": "wasm-instrument / wasmi over whole modules",
-    "C47": "read_memory/write_memory index arithmetic sits behind wasmi's Memory type in radix-engine (Engine-M dump of radix-engine not built in the time available)",
+    "C47": "read_memory/write_memory are generic over wasmi's store / Memory types; a slice model with symbolic length for Engine M was not built in the time available",
     "C48": "substance is hash / signature computation",
     "C49": "LimitsModule accounting needs ModuleApi plumbing; not built in the time available",
     "C50": "enforced by SystemService over kernel call frames across transactions",
